@@ -480,7 +480,27 @@ def run_property(modname, tier='quick', seed=0, rebaseline=False, only=None, can
             if kind == 'crash':
                 rep.faults.append(f'{c.name}: {text[-600:]}')
             else:
-                rep.undecided.append(f'{c.name}: {kind}: {text}')
+                # the changed function left the verifiable subset altogether: its contract was proved on the unchanged tree (baseline) and cannot be re-proved; if the
+                # replay driver shows a failing input of this very function on the real code, that is a violation with a witness; otherwise it stays undecided
+                b = bl0.get(c.name)
+                decided = False
+                if b and not rebaseline and getattr(module, 'REPLAY', None):
+                    try:
+                        now = source.func_hash(source.load(c.file).function(c.qualname))
+                    except source.SourceError:
+                        now = None
+                    if now and b.get('ast_sha') != now:
+                        out, err = run_replay(module.REPLAY, ['--search', c.qualname, '--models', '[]'])
+                        wits = [w for w in (out or {}).get('witnesses', []) if str(w.get('function', '')).endswith(c.qualname.split('.')[-1])]
+                        if wits:
+                            ob = f'{c.name}:contract-no-longer-provable-after-the-change-({kind})'
+                            path = write_replay_file(pid, ob, dict(property=pid, obligation=ob, function=c.name, reason=text[:400], failing_input=wits[0], replay=(out or {}).get('how', ''),
+                                                                   note='every obligation of this function was discharged on the unchanged tree (baseline_obligations.json); the changed body is outside '
+                                                                        'the verifiable subset; the failing input below was found on the real code by the replay driver'))
+                            rep.violations.append((ob, path, True))
+                            decided = True
+                if not decided:
+                    rep.undecided.append(f'{c.name}: {kind}: {text}')
     # extra (non-VC) obligations supplied by the contract module
     for fn in getattr(module, 'EXTRA_OBLIGATIONS', []):
         try:
